@@ -8,6 +8,7 @@
   of them can be compiled.
 -/
 import Yld.Model.Parser
+import Yld.Proofs.Grammar
 namespace Yld.C10
 
 private theorem scan_no_quote (cs : List Char) (n : Nat) (b : Bool) (h : '\'' ∉ cs) : scanString cs n b none = none := by
@@ -72,5 +73,25 @@ theorem leftover_rejected (f : Nat) (toks : List Tok) (e : FrontErr)
   cases toks with
   | nil => exact absurd rfl hne
   | cons t ts => simp only [recogniseToks]; rw [h]
+
+/-! ### The model parser accepts only sentences of the grammar
+
+`Generated.grammar` is the BNF of the parser rules of prolog.g4, regenerated from the file on every
+run (EBNF expanded by harness/g4.py); `Derives` is derivability in that table. -/
+
+/-- A token list the model's recogniser accepts derives from `program`. -/
+theorem recogniser_accepts_only_sentences (f : Nat) (toks : List Tok) (h : recogniseToks f toks = true) :
+    Derives Generated.grammar (false, "program") (kinds toks) :=
+  recogniseToks_sound f toks h
+
+/-- Every text the model front end (lexer, parser, visitor) accepts is a sentence of the grammar
+    of prolog.g4: whatever is outside the grammar is rejected by the model, which tie T1 compares
+    with the real compiler on every generated and corrupted text. -/
+theorem front_end_accepts_only_sentences (s : String) (r : List SClause × Bool) (h : frontend s = .ok r) :
+    ∃ toks, lex s = some toks ∧ Derives Generated.grammar (false, "program") (kinds toks) :=
+  frontend_sound s r h
+
+/-- Non-vacuity: `p.` is a sentence. -/
+example : recogniseToks 2 [.atom "p", .dot] = true := by decide
 
 end Yld.C10
